@@ -39,6 +39,8 @@ def insert_paths(prog, ctx):
 def insert_flows(prog, ctx):
     f, ps = insert_paths(prog, ctx)
     counting = ctx == "CountingCuckooFilter"
+    from ..own import set_candidate_defs
+    set_candidate_defs(prog, ctx)
     tp = {"fingerprint": ("fp", "count" if counting else "", ["idx_1", "idx_2"])}
     return f, [(p, analyse(p, counting, tp, counters=("_inserted_elements", "_CountingCuckooFilter__unique_elements"))) for p in ps]
 
